@@ -216,7 +216,9 @@ ALPHAS = [Fraction(1, 8), Fraction(1, 4), Fraction(1, 2), Fraction(3, 4), Fracti
 BAD_ALPHAS = [0, 1, 0.0, 1.0, -0.25, 1.5]
 LEVEL_PAIRS = [(0.25, 0.75), (0.125, 0.5), (0.5, 0.875), (0.05, 0.95), (0.1, 0.9), (0.025, 0.975), (0.25, 0.5), (0.1, 0.3)]
 BAD_LEVEL_PAIRS = [(0.5, 0.5), (0.75, 0.25), (0.0, 0.5), (0.5, 1.0), (0, 1), (-0.1, 0.5), (0.5, 1.5)]
-RANGES = [0.5, 0.25, 0.75, 0.9, 0.8, 0.95, 0.125, 0.6]
+RANGES = [0.5, 0.25, 0.75, 0.9, 0.8, 0.95, 0.125, 0.6,
+          # ranges with many significant digits (1 / 2 sigma coverage, thirds, nearly 1): the quantile levels derived from them must not be rounded
+          0.6827, 0.9545, 0.99999, 0.333333333333, 0.0001220703125]
 BAD_RANGES = [0, 1, 0.0, 1.0, -0.5, 1.5]
 
 
